@@ -67,7 +67,7 @@ type Result struct {
 	exit    int
 	crashed bool
 	stderr  string
-	wallMs int64
+	wallMs  int64
 }
 
 func goEnv() []string {
